@@ -340,6 +340,10 @@ def oracle_case(ctx, c, how):
            "headers_in_file": hdrs, "bracket_pairs_in_file": brs, "targets_wrong": len(bad), "input": brief(c)}
     if shape_only and distinct > CAP and fmt in ("csv", "json") and mode != "pipe":
         rep["class"] = WCLASS
+        seen = ctx.cov.setdefault("finding_witnesses", {})
+        seen["lru-ops:" + fmt] = seen.get("lru-ops:" + fmt, 0) + 1
+        if seen["lru-ops:" + fmt] > 1:
+            return 0                      # same class, same surface: already reported once
         rep["note"] = ("records complete and in order; the file is not ONE document: the handler was evicted from the LRU cache and "
                        "re-opened in append mode with a fresh record writer (file_output_handlers.go:getOutputHandlerFor)")
     else:
@@ -417,6 +421,10 @@ def e2e(ctx, scratch):
             if shape_only:
                 cls = WCLASS
                 rep["note"] = "records complete and in order in every target; header / bracket pair repeated after LRU eviction and re-open"
+                seen = ctx.cov.setdefault("finding_witnesses", {})
+                seen["mlr:" + fmt] = seen.get("mlr:" + fmt, 0) + 1
+                if seen["mlr:" + fmt] > 1:
+                    return False
         if wrong:
             rep["target"] = wrong[0]
             rep["observed"] = files.get(wrong[0], "")[:500]
@@ -567,7 +575,7 @@ def tee_then_head(ctx, scratch):
 def build_cases(ctx):
     rng = ctx.rng
     cases = []
-    nsmall = 260 if ctx.tier == "quick" else 3000
+    nsmall = 160 if ctx.tier == "quick" else 3000
     for _ in range(nsmall):
         fmt, mode = rng.choice(FMTS), rng.choice(MODES if rng.random() < 0.12 else MODES[:2])
         strings = rng.random() < 0.2
